@@ -53,6 +53,9 @@ REG = {
  'C17': ('model_checking', 'TLA+ pipeline semantics for the slice/map/materialise bridges enumerated by TLC and replayed; TLA+ hand-off model (Detach.tla) checked by TLC and real channel traces validated against DetachTrace.tla',
          'ToSlice / ToMap / Materialize-Dematerialize identity are decided by the Ops.tla machines (exhaustive inside bounds, per-step replay). ToChannel / FromChannel: Detach.tla models channel + sync.Once close + goroutine (FIFO, no loss, terminal last, close once; TLC exhaustive for capacities 0..2) and recorded traces of the real operators under every capacity, consumer speed, ending and unsubscription point are validated by TLC.',
          'the ToChannel hand-out race (channel handed out after the source already completed) needs a park hook and is not exercised yet; Collect is covered by the kernel Wait traces', '6/C17'),
+ 'C16': ('exploration', 'recorded real-time timelines validated by TLC against a TLA+ acceptor of discrete-time definitions (TimedTrace.tla); TLA+ Level-2 model of Delay (DelayImpl.tla) checked by TLC',
+         'Real time cannot be driven from a model, so the time-driven operators are run on seeded timelines and their recorded traces (monotonic microsecond timestamps taken before the harness acts and inside the observer) are validated event by event against TimedTrace.tla, which asserts only lower bounds on time and order/count relations - load can only make a run later, never produce a false alarm. DelayImpl.tla shows that the two-lock hand-over-hand queue with unordered timer callbacks is FIFO and never early.',
+         'exploration: seeded timelines, not exhaustive; durations 2-13 ms', '6/C16'),
 }
 NA_REASON = 'check not built yet (framework under construction); planned, see DESIGN.md section 6'
 
